@@ -21,6 +21,7 @@ ASSUMPTIONS = [
 
 V3 = (0.0, 1.0, 2.0)
 A4 = (-1.0, 0.0, 1.0, 2.0)
+A5 = (-2.0, -1.0, 0.0, 1.0, 2.0)     # -1.0 and -2.0 have the same hash in CPython (a comparator caching by hash must not mix them up)
 B2 = (0.0, 1.0)
 # near-ties: adjacent floats and 1e-12-relative neighbours at three magnitudes (Pareto comparator only; for the epsilon
 # comparator such pairs are inside "rounding error", where the statement promises nothing)
@@ -124,6 +125,16 @@ def _shard(shard, col: Collector):
         name = "pareto" if spec == "pareto" else "epsilon"
         n = len(vs)
         ver = [[cmp_(list(p), list(q)) for q in vs] for p in vs]   # the implementation's verdict matrix
+        # the same comparator object, asked again in the opposite order: a verdict must not depend on what the object
+        # has been asked before (caches, memoised state)
+        for i in range(n - 1, -1, -1):
+            for j in range(n - 1, -1, -1):
+                again = cmp_(list(vs[i]), list(vs[j]))
+                if again != ver[i][j]:
+                    col.violation("C01:%s:verdict-depends-on-history" % name, "history",
+                                  "%s.compare(%r, %r) gave %r first and %r when asked again on the same comparator object" % (
+                                      name, vs[i], vs[j], ver[i][j], again), {"spec": spec, "values": values, "m": m, "p": vs[i], "q": vs[j]})
+                    ver[i][j] = again if ref_dominance(vs[i], vs[j]) != again else ver[i][j]
         for i, p in enumerate(vs):
             for j, q in enumerate(vs):
                 col.case()
@@ -174,6 +185,16 @@ def replay(sub, case):
         return check_pair(spec, t(case["p"]), t(case["q"]))
     if sub == "triple":
         return check_triple(spec, t(case["a"]), t(case["b"]), t(case["c"]))
+    if sub == "history":
+        vs = vectors(tuple(case["values"]), case["m"])
+        cmp_ = make_comparator(spec).compare
+        first = [[cmp_(list(p), list(q)) for q in vs] for p in vs]
+        out = []
+        for i in range(len(vs) - 1, -1, -1):
+            for j in range(len(vs) - 1, -1, -1):
+                if cmp_(list(vs[i]), list(vs[j])) != first[i][j] and not out:
+                    out.append(("C01:verdict-depends-on-history", "compare(%r, %r) changed on the same object" % (vs[i], vs[j])))
+        return out
     if sub == "built":
         return check_built(t(case["costs_p"]), t(case["costs_q"]), t(case["signs"]), case["feas_p"], case["feas_q"])
     raise ValueError(sub)
@@ -183,9 +204,11 @@ def run(tier, seed):
     specs = ["pareto"] + [("eps", e) for e in EPS_LISTS]
     shards = []
     for spec in specs:
-        shards += [("pairs", spec, A4, 1), ("pairs", spec, A4, 2), ("pairs", spec, V3, 3), ("pairs", spec, B2, 4)]
+        shards += [("pairs", spec, A5, 1), ("pairs", spec, A5, 2), ("pairs", spec, V3, 3), ("pairs", spec, B2, 4)]
+        if spec == "pareto" or spec == ("eps", [0.1, 0.1]):
+            shards += [("pairs", spec, (-2.0, -1.0, 1.0), 3)]
         if tier == "thorough":
-            shards += [("pairs", spec, A4, 3), ("pairs", spec, B2, 5), ("pairs", spec, B2, 6)]
+            shards += [("pairs", spec, A5, 3), ("pairs", spec, B2, 5), ("pairs", spec, B2, 6)]
     shards += [("pairs", "pareto", NEAR, 1), ("pairs", "pareto", NEAR, 2)]
     if tier == "thorough":
         shards += [("pairs", "pareto", NEAR, 3)]
@@ -195,7 +218,7 @@ def run(tier, seed):
     shards.sort(key=lambda s: -len(s[-2]) ** s[-1])
     col = run_shards(_shard, shards)
     extra = {"exhaustive": True,
-             "alphabets": {"A4": A4, "V3": V3, "B2": B2, "markers": MARK, "epsilons": [repr(e) for e in EPS_LISTS]},
-             "bounds": "pairs+triples: A4^1, A4^2, V3^3, {0,1}^4, near-tie alphabet NEAR^1, NEAR^2 for Pareto (thorough: A4^3, {0,1}^5, {0,1}^6, NEAR^3) x markers",
+             "alphabets": {"A5": A5, "V3": V3, "B2": B2, "markers": MARK, "epsilons": [repr(e) for e in EPS_LISTS]},
+             "bounds": "pairs+triples: A5^1, A5^2, {-2,-1,1}^3, V3^3, {0,1}^4, near-tie alphabet NEAR^1, NEAR^2 for Pareto (thorough: A5^3, {0,1}^5, {0,1}^6, NEAR^3) x markers",
              "near_tie_alphabet": [repr(v) for v in NEAR]}
     return col, extra
